@@ -140,7 +140,10 @@ class Py:
 		return self.expr(n)
 
 	def in_init_top(self) -> bool:
-		return len(self.stack) >= 2 and self.stack[-1] == 'def:__init__' and self.stack[-2] == 'class'
+		if not self.stack or self.stack[-1] != 'def:__init__':
+			return False
+		below = [c for c in self.stack[:-1] if c != 'flow']  # a constructor below if/try/... in the class body is a constructor all the same
+		return bool(below) and below[-1] == 'class'
 
 	def decorators(self, lst) -> list:
 		out = []
@@ -174,7 +177,8 @@ class Py:
 		encl = [c for c in self.stack if c != 'flow']
 		direct = self.stack[-1] if self.stack else 'module'
 		first_deco = self.dotted(n.decorator_list[0]) if n.decorator_list and isinstance(n.decorator_list[0], (ast.Name, ast.Attribute)) else (self.dotted(n.decorator_list[0].func) if n.decorator_list and isinstance(n.decorator_list[0], ast.Call) else None)
-		in_class_directly = direct == 'class'
+		# a def below if/try/with/for/while in a class body is bound as a class attribute exactly like one directly in the body
+		in_class_directly = direct == 'class' or (direct == 'flow' and bool(encl) and encl[-1] == 'class')
 		in_def = any(c.startswith('def:') for c in encl)
 		if in_class_directly:
 			if first_deco == 'classmethod':
@@ -183,11 +187,11 @@ class Py:
 				return 'Constructor'
 			if n.args.args and n.args.args[0].arg == 'self':
 				return 'Method'
+			if direct == 'flow':
+				return None  # a def without self below control flow in a class body: the node model has no class for it, not judged
 			return 'Function'
 		if first_deco == 'classmethod' or n.name == '__init__' or (n.args.args and n.args.args[0].arg in ('self', 'cls')):
 			return None  # method-looking definitions outside a class body: python has no such notion, not judged
-		if encl and encl[-1] == 'class':
-			return None  # inside control flow inside a class body: not judged
 		return 'Closure' if in_def else 'Function'
 
 	def stmt(self, n):
